@@ -228,12 +228,21 @@ func c10Collect() c10Facts {
 				if !ok || rs.Value == nil || len(rs.Body.List) == 0 {
 					return true
 				}
-				is, ok := rs.Body.List[0].(*ast.IfStmt)
+				// the element: the range value itself, or — when the loop ranges over the SORTED KEYS of the map
+				// (`for _, k := range slices.Sorted(maps.Keys(m)) { v := m[k]; if v == nil {…} }`) — the variable the
+				// first statement assigns `m[k]` to
+				elem, first := exprString(rs.Value), 0
+				if as, ok := rs.Body.List[0].(*ast.AssignStmt); ok && as.Tok == token.DEFINE && len(as.Lhs) == 1 && len(as.Rhs) == 1 && len(rs.Body.List) > 1 {
+					if ix, ok := as.Rhs[0].(*ast.IndexExpr); ok && exprString(ix.Index) == exprString(rs.Value) {
+						elem, first = exprString(as.Lhs[0]), 1
+					}
+				}
+				is, ok := rs.Body.List[first].(*ast.IfStmt)
 				if !ok || is.Init != nil || len(is.Body.List) == 0 {
 					return true
 				}
 				be, ok := is.Cond.(*ast.BinaryExpr)
-				if !ok || be.Op != token.EQL || exprString(be.X) != exprString(rs.Value) || exprString(be.Y) != "nil" {
+				if !ok || be.Op != token.EQL || exprString(be.X) != elem || exprString(be.Y) != "nil" {
 					return true
 				}
 				if _, ok := is.Body.List[len(is.Body.List)-1].(*ast.ReturnStmt); ok {
